@@ -145,8 +145,25 @@ Section LiveGen.
   Lemma check_it_core s : core (check_it s) = core (st_curr s).
   Proof. unfold check_iterate. destruct (need_gradh P && negb (ihave (st_curr s))); reflexivity. Qed.
 
+  Lemma pass_exit_x s o : pass_ s = PExit o -> out_status o = StConverged ->
+    out_x o = ixh (check_it s) /\ out_eps o = eps_of (check_it s).
+  Proof.
+    unfold pass. cbv zeta. fold (check_it s). fold (eps_of (check_it s)).
+    destruct (status_of s) eqn:Est.
+    1: match goal with |- context [match ?X with LsDone _ => _ | LsStopped _ => _ | LsFuel => PFuel end] => destruct X end; discriminate.
+    2-7: match goal with |- context [exit_block ?a ?b ?c ?d ?e ?f ?g ?h] => destruct (exit_block a b c d e f g h) as [[xo yo] eo] end;
+         intros E; inversion E; cbn [out_status]; discriminate.
+    unfold exit_block. cbn [overwrites andb].
+    intros E Hs. inversion E. cbn [out_x out_eps]. split; [|reflexivity].
+    destruct (p_eager P); reflexivity.
+  Qed.
+
+  (* what is known about the iterate of the final stop check *)
+  Definition final_ok (o : outputs (T:=R)) : Prop :=
+    exists cf : it, Consistent cf /\ (need_gradh P = true -> ihave cf = true) /\ good cf /\ out_x o = ixh cf /\ out_eps o = eps_of cf.
+
   Lemma pass_live_g s : LInvG s ->
-    (exists o, pass_ s = PExit o /\ out_status o = StConverged /\ out_iterations o = st_k s) \/
+    (exists o, pass_ s = PExit o /\ out_status o = StConverged /\ out_iterations o = st_k s /\ final_ok o) \/
     (exists s', pass_ s = PCont s' /\ LInvG s' /\ st_k s' = S (st_k s)).
   Proof.
     intros HI. pose proof (LInvG_k s HI) as Hk. destruct HI as [Hinv G Hnp Hpot].
@@ -159,8 +176,10 @@ Section LiveGen.
     assert (Efbe : it_fbe (check_it s) = it_fbe (st_curr s)) by (now apply (PP fbe_core)).
     destruct (pass_ s) as [o|s'|] eqn:Ep; [| |exfalso; now apply Hnf].
     - left. exists o. destruct (pass_exit_shape psi_grad_full psi_yhat grad_L lb ub dir_apply has_initial P x_in y_in Σ errz_in ls_fuel s o Ep) as (E1 & E2 & E3).
-      split; [reflexivity|]. split; [|exact E2]. rewrite E1.
-      destruct (status_cases grad_L lb ub P s Hkm Hnp) as [Ec|[Eb _]]; [exact Ec|contradiction].
+      assert (Hst : out_status o = StConverged).
+      { rewrite E1. destruct (status_cases grad_L lb ub P s Hkm Hnp) as [Ec|[Eb _]]; [exact Ec|contradiction]. }
+      split; [reflexivity|]. split; [exact Hst|]. split; [exact E2|].
+      destruct (pass_exit_x s o Ep Hst) as [Ex Ee]. exists (check_it s). repeat (split; [assumption|]). exact Ee.
     - right. exists s'. split; [reflexivity|].
       destruct (PL pass_cont_shape n Hdir s s' Ep) as (Eb & q & τi & upd & c & st & l & Hτ & Hq & Hls). cbv zeta in Hls.
       destruct (status_cases grad_L lb ub P s Hkm Hnp) as [Ec|[_ Hepsb]]; [rewrite Ec in Eb; discriminate|].
@@ -197,16 +216,16 @@ Section LiveGen.
   Qed.
 
   Lemma loop_live_g : forall fuel s, LInvG s -> (N < fuel + st_k s)%nat ->
-    exists o, loop_ fuel s = Done o /\ out_status o = StConverged /\ (out_iterations o < N)%nat.
+    exists o, loop_ fuel s = Done o /\ out_status o = StConverged /\ (out_iterations o < N)%nat /\ final_ok o.
   Proof.
     induction fuel as [|fuel IH]; intros s HI Hf; pose proof (LInvG_k s HI) as Hk; [lia|].
-    cbn [loop]. destruct (pass_live_g s HI) as [(o & Ep & Es & Ei)|(s' & Ep & HI' & Ek)]; rewrite Ep.
-    - exists o. split; [reflexivity|]. split; [exact Es|lia].
+    cbn [loop]. destruct (pass_live_g s HI) as [(o & Ep & Es & Ei & Efin)|(s' & Ep & HI' & Ek)]; rewrite Ep.
+    - exists o. split; [reflexivity|]. split; [exact Es|]. split; [lia|exact Efin].
     - apply IH; [exact HI'|lia].
   Qed.
 
   Theorem panoc_live_g fuel : (N < fuel)%nat ->
-    exists o, panoc_ fuel = Done o /\ out_status o = StConverged /\ (out_iterations o < N)%nat.
+    exists o, panoc_ fuel = Done o /\ out_status o = StConverged /\ (out_iterations o < N)%nat /\ final_ok o.
   Proof.
     intros Hf. unfold panoc.
     destruct (init_L psi_grad_full grad_psi P x_in) as [i0 c0] eqn:E0.
@@ -332,11 +351,17 @@ Section LiveKkt.
     eapply Rle_trans; [|exact Htot]. apply vnorminf_le; [|exact CR]. nra.
   Qed.
 
-  Theorem panoc_live_kkt (N fuel : nat) : Phi0 - ψinf < INR N * dec_kkt -> (N <= p_max_iter P)%nat -> (N < fuel)%nat ->
-    exists o, panoc_ fuel = Done o /\ out_status o = StConverged /\ (out_iterations o < N)%nat.
+  Theorem panoc_live_kkt_final (N fuel : nat) : Phi0 - ψinf < INR N * dec_kkt -> (N <= p_max_iter P)%nat -> (N < fuel)%nat ->
+    exists o, panoc_ fuel = Done o /\ out_status o = StConverged /\ (out_iterations o < N)%nat /\
+              final_ok psi_grad_full psi_yhat grad_L grad_psi lb ub P x_in ψ g n Lf o.
   Proof.
     intros HN Hmax Hf.
     pose proof (PL panoc_live_g ψ g n Lf ψinf) as X. spec X. specialize (X nL nT). spec X.
     specialize (X delta_kkt delta_kkt_pos eps_small_kkt Phi0 N HN Hmax (Rle_refl _) fuel Hf). exact X.
+  Qed.
+  Theorem panoc_live_kkt (N fuel : nat) : Phi0 - ψinf < INR N * dec_kkt -> (N <= p_max_iter P)%nat -> (N < fuel)%nat ->
+    exists o, panoc_ fuel = Done o /\ out_status o = StConverged /\ (out_iterations o < N)%nat.
+  Proof.
+    intros HN Hmax Hf. destruct (panoc_live_kkt_final N fuel HN Hmax Hf) as (o & A & B & C & _). exists o. repeat split; assumption.
   Qed.
 End LiveKkt.
